@@ -9,8 +9,8 @@
 //! after about that many 20-row batches (4 → practically never). One reader actor polls the stream
 //! to end-of-stream, or drops it after `reader_max` batches. Real temp files (per-case tempdir).
 //! **Faults**: `quota = Some{after_pushes, extra}` sets `max_temp_directory_size` to the disk usage
-//! a sequential dry run (no reader, writers round robin) shows after `after_pushes` non-empty pushes,
-//! plus `extra` bytes — so in schedule order some push fails, either at its first byte (`extra = 0`)
+//! a sequential dry run (no reader, writers round robin) shows after `after_pushes·n/8` of the n
+//! non-empty pushes, plus `extra` bytes — so in schedule order some push fails, either at its first byte (`extra = 0`)
 //! or half-way through a batch. Which push fails is an outcome (the reader may free space earlier).
 //! **Schedule**: `sched::Schedule` with ≤ 3 (quick) / 4 (thorough) preemptions; yield points are every
 //! `Mutex::lock` in `spill_pool.rs`, every `Pending`, and the gaps between script operations.
@@ -82,6 +82,7 @@ pub struct WriterScript {
 
 #[derive(Clone, Debug, Serialize, Deserialize)]
 pub struct Quota {
+    /// 0..=7: the quota equals the dry-run disk usage after `after_pushes·n/8` of the n non-empty pushes
     pub after_pushes: u8,
     pub extra: u16,
 }
@@ -163,6 +164,7 @@ fn max_file_size(case: &Case, schema: &SchemaRef) -> usize {
 }
 
 #[derive(Clone, Debug)]
+#[allow(dead_code)]
 enum Ev {
     PushStart { w: usize, id: i32, rows: usize },
     PushEnd { id: i32, rows: usize, ok: bool, err: String },
@@ -241,7 +243,10 @@ fn execute(case: &Case) -> Result<Outcome16, String> {
     let mut quota_bytes = None;
     if let Some(q) = &case.quota {
         let cum = dry_run(case, &env, &schema)?;
-        let k = (q.after_pushes as usize).min(cum.len() - 1);
+        // cum has one entry per non-empty push plus the initial 0; map 0..=7 monotonically onto
+        // 0..n so that (in sequential order) the quota is always hit by some push
+        let n = cum.len() - 1;
+        let k = ((q.after_pushes as usize).min(7) * n) / 8;
         let bytes = cum[k] + q.extra as u64;
         env.disk_manager.set_max_temp_directory_size(bytes).map_err(|e| format!("set quota: {e}"))?;
         quota_bytes = Some(bytes);
@@ -527,7 +532,7 @@ impl Property for C16 {
         let max_pre = tier.pick(3, 4);
         let code = prop_oneof![1 => Just(0u8), 2 => Just(1u8), 4 => Just(2u8), 2 => Just(3u8)];
         let writer = (any::<bool>(), prop::collection::vec(code, 0..=4)).prop_map(|(sink, pushes)| WriterScript { sink, pushes });
-        let quota = prop::option::weighted(0.5, (0u8..=8, prop_oneof![2 => Just(0u16), 1 => 1u16..=8, 2 => 9u16..=400]).prop_map(|(after_pushes, extra)| Quota { after_pushes, extra }));
+        let quota = prop::option::weighted(0.5, (0u8..=7, prop_oneof![2 => Just(0u16), 1 => 1u16..=8, 2 => 9u16..=400]).prop_map(|(after_pushes, extra)| Quota { after_pushes, extra }));
         (
             any::<bool>(),
             prop::collection::vec(writer, 1..=3),
